@@ -391,6 +391,7 @@ def c14_rust(ctx):
     c14_tie_break(ctx, F)
     c14_lex_state_merge(ctx, F)
     c14_lex_minimize(ctx, F)
+    c14_implicit_precedence(ctx, F)
     c14_prefer(ctx, F)
     c14_group_transitions(ctx, F)
     fn = find_fn(ctx, F, "build_tables::identify_keywords", "G3")
@@ -487,6 +488,42 @@ def c14_lex_state_merge(ctx, F):
         ctx.ok("G4", "merge_token_set:checks-use-check_token_conflicts", "%d directed conflict checks (check_token_conflicts)" % len(cl))
     else:
         ctx.bad("G4", "merge_token_set:checks-use-check_token_conflicts", "merge_token_set has only %d closure(s) calling check_token_conflicts; the conflict test is directed and must be made from both token sets" % len(cl))
+
+
+def c14_implicit_precedence(ctx, F):
+    """C14.I1: a string literal is preferred over a pattern however it is wrapped.  get_implicit_precedence looks
+    through *every* metadata wrapper (token(), prec(), alias …) for the String underneath; only the immediate-token
+    boost depends on the wrapper.  So the answer "no implicit precedence" is given only for a rule that is neither a
+    String nor a Metadata wrapper — never on a path that just saw a wrapper."""
+    fn = find_fn(ctx, F, "expand_tokens::get_implicit_precedence", "I1")
+    if not fn:
+        return
+    rets = [(pt, x) for pt, e in fn.points() for x in own_walk(e) if x.get("k") == "assign" and show(x["l"]) == "_0"]
+    plain = [pt for pt, x in rets if "2" not in deep_text(fn, x["r"], user=False).replace("boost", "") and "get_implicit_precedence(" not in deep_text(fn, x["r"], user=True)]
+    strong = [pt for pt, x in rets if pt not in plain]
+    if not strong or not plain:
+        ctx.bad("I1", "get_implicit_precedence:two-answers", "get_implicit_precedence no longer has both answers (2 + boost for a String / boost otherwise)")
+        return
+
+    class Last(Monitor):
+        def elem(self, m, pt, e, s):
+            if pt in plain and m == "Metadata":
+                return Viol("answers without looking inside the metadata wrapper it just found", pt)
+            return m
+
+        def edge(self, m, bid, edge, cond, truth, s):
+            if cond is not None and isinstance(edge.lab, dict):
+                txt, _ = cond_text(fn, cond, True, deep=True)
+                if txt.startswith("discriminant(") and "RulePool::node(" in txt:
+                    return edge.lab.get("name") or "other"
+            return m
+    sr = Search(fn, Last(), budget=200000)
+    v = sr.run("start")
+    if v is None:
+        ctx.ok("I1", "get_implicit_precedence:looks-through-every-wrapper", "a non-String answer is only given for a rule that is not a metadata wrapper (%d states)" % sr.states)
+    else:
+        ctx.bad("I1", "get_implicit_precedence:looks-through-every-wrapper", "get_implicit_precedence %s (%s): a literal written token(prec(N, 'lit')) loses its preference over a pattern that matches the same text"
+                % (v.msg, fn.loc(v.pt)), {"path": sr.render_path(v.path)[-5:]})
 
 
 def c14_lex_minimize(ctx, F):
